@@ -41,3 +41,19 @@ Definition render_resp (b : build) (l : bytes) : string :=
 
 Definition render_resp_all (b : build) (cases : list bytes) : string :=
   join nl (map (render_resp b) cases).
+
+(* ---- connection mode ---- *)
+From BC Require Import Resp.Conn.
+Definition show_rres (r : rres) : string :=
+  match r with
+  | RFrame f => "frame:" ++ show_frame f
+  | RClean => "clean" | RReset => "reset"
+  | RErr e => "err:" ++ show_ferr e
+  | RPanic => "panic" | RAbort => "abort" | RFuel => "outoffuel"
+  end.
+Definition render_read (segs : list bytes) : string :=
+  join ";" (map show_rres (read_all (fixed Debug) segs [])).
+Definition render_read_all (cases : list (list bytes)) : string := join nl (map render_read cases).
+Definition render_write (f : frame) : string :=
+  match enc f with Ok b => "ok:" ++ show_hex b | Panic => "panic" | _ => "other" end.
+Definition render_write_all (cases : list frame) : string := join nl (map render_write cases).
